@@ -56,6 +56,13 @@ pub mod verif {
         pub cleanup: Vec<String>,
         pub queue: Vec<(String, String)>,
         pub gen: usize,
+        /// per job (declaration order): its upstream and downstream neighbours in the order the
+        /// (pruned) dag iterates them
+        pub order: Vec<(String, Vec<String>, Vec<String>)>,
+        /// dag.nodes() order
+        pub dag_nodes: Vec<String>,
+        /// the topological order computed at startup
+        pub topo: Vec<String>,
     }
 
     thread_local! {
